@@ -100,7 +100,8 @@ fn transform(rng: &mut Rng) -> String {
         let v: Vec<String> = (0..k).map(|_| num(rng, -9, 9).0).collect();
         parts.push(format!("{name}({}{}{})", if rng.chance(1, 4) { " " } else { "" }, join_nums(rng, &v), if rng.chance(1, 4) { " " } else { "" }));
     }
-    parts.join(*rng.pick(&[" ", ", ", "", "  "]))
+    // comma-wsp between the transforms: any run of blanks with at most one comma, or nothing at all
+    parts.join(*rng.pick(&[" ", ", ", "", "  ", ",", " ,", ",\t", ",\n", ",  ", "\n", " , "]))
 }
 
 fn length(rng: &mut Rng) -> String {
